@@ -784,10 +784,24 @@ EXPORT errno_t _wcsnorm_reorder_s_chk(wchar_t *restrict dest, rsize_t dmax,
                 seq_max = cc_pos + CC_SEQ_STEP; /* new size */
                 if (CC_SEQ_SIZE == cc_pos) {    /* seq_ary full */
                     seq_ext = (UNWIF_cc *)malloc(seq_max * sizeof(UNWIF_cc));
+                    if (unlikely(!seq_ext)) {
+                        handle_werror(orig_dest, orig_dmax,
+                                      "wcsnorm_reorder_s: malloc failed",
+                                      ENOMEM);
+                        return RCNEGATE(ENOMEM);
+                    }
                     memcpy(seq_ext, seq_ary, cc_pos * sizeof(UNWIF_cc));
                 } else {
-                    seq_ext = (UNWIF_cc *)realloc(seq_ext,
-                                                  seq_max * sizeof(UNWIF_cc));
+                    UNWIF_cc *seq_new = (UNWIF_cc *)realloc(
+                        seq_ext, seq_max * sizeof(UNWIF_cc));
+                    if (unlikely(!seq_new)) {
+                        free(seq_ext);
+                        handle_werror(orig_dest, orig_dmax,
+                                      "wcsnorm_reorder_s: realloc failed",
+                                      ENOMEM);
+                        return RCNEGATE(ENOMEM);
+                    }
+                    seq_ext = seq_new;
                 }
                 seq_ptr = seq_ext; /* use seq_ext from now */
             }
@@ -810,6 +824,8 @@ EXPORT errno_t _wcsnorm_reorder_s_chk(wchar_t *restrict dest, rsize_t dmax,
                               "wcsnorm_reorder_s: "
                               "dmax too small",
                               ESNOSPC);
+                if (seq_ext)
+                    free(seq_ext);
                 return RCNEGATE(ESNOSPC);
             }
 
@@ -831,6 +847,8 @@ EXPORT errno_t _wcsnorm_reorder_s_chk(wchar_t *restrict dest, rsize_t dmax,
                           "wcsnorm_reorder_s: "
                           "dmax too small",
                           ESNOSPC);
+            if (seq_ext)
+                free(seq_ext);
             return RCNEGATE(ESNOSPC);
         }
     }
@@ -966,6 +984,8 @@ EXPORT errno_t _wcsnorm_compose_s_chk(wchar_t *restrict dest, rsize_t dmax,
                                   "wcsnorm_compose_s: "
                                   "dmax too small",
                                   ESNOSPC);
+                    if (seq_ext)
+                        free(seq_ext);
                     return RCNEGATE(ESNOSPC);
                 }
                 continue;
@@ -1007,10 +1027,26 @@ EXPORT errno_t _wcsnorm_compose_s_chk(wchar_t *restrict dest, rsize_t dmax,
                         if (CC_SEQ_SIZE == cc_pos) {    /* seq_ary full */
                             seq_ext =
                                 (uint32_t *)malloc(seq_max * sizeof(uint32_t));
+                            if (unlikely(!seq_ext)) {
+                                handle_werror(orig_dest, orig_dmax,
+                                              "wcsnorm_compose_s: "
+                                              "malloc failed",
+                                              ENOMEM);
+                                return RCNEGATE(ENOMEM);
+                            }
                             memcpy(seq_ext, seq_ary, cc_pos * sizeof(uint32_t));
                         } else {
-                            seq_ext = (uint32_t *)realloc(
+                            uint32_t *seq_new = (uint32_t *)realloc(
                                 seq_ext, seq_max * sizeof(uint32_t));
+                            if (unlikely(!seq_new)) {
+                                free(seq_ext);
+                                handle_werror(orig_dest, orig_dmax,
+                                              "wcsnorm_compose_s: "
+                                              "realloc failed",
+                                              ENOMEM);
+                                return RCNEGATE(ENOMEM);
+                            }
+                            seq_ext = seq_new;
                         }
                         seq_ptr = seq_ext; /* use seq_ext from now */
                     }
@@ -1029,6 +1065,8 @@ EXPORT errno_t _wcsnorm_compose_s_chk(wchar_t *restrict dest, rsize_t dmax,
                           "wcsnorm_compose_s: "
                           "dmax too small",
                           ESNOSPC);
+            if (seq_ext)
+                free(seq_ext);
             return RCNEGATE(ESNOSPC);
         }
 
@@ -1139,8 +1177,13 @@ EXPORT errno_t _wcsnorm_s_chk(wchar_t *restrict dest, rsize_t dmax,
     /* temp. scratch space, on stack or heap */
     if (len + 2 < 128)
         tmp_ptr = tmp_stack;
-    else
+    else {
         tmp_ptr = tmp = (wchar_t *)malloc((len + 2) * sizeof(wchar_t));
+        if (unlikely(!tmp)) {
+            handle_werror(dest, dmax, "wcsnorm_s: malloc failed", ENOMEM);
+            return RCNEGATE(ENOMEM);
+        }
+    }
 
     rc = _wcsnorm_reorder_s_chk(tmp_ptr, len + 2, dest, len, destbos);
     if (unlikely(rc)) {
